@@ -604,3 +604,33 @@ Definition c14_facts (d : device) : string :=
 
 Definition c14_full (dev_name : string) (d : device) : string :=
   c14_result dev_name d ++ " ## " ++ c14_facts d.
+
+(* Pass order after the repair of D14 (/repo 0a1d247): refs_validated runs BEFORE reset_values_converted,
+   so a dangling / wrong-kind target is always reported by refs_validated and the `expect`s of the reset
+   pass are unreachable for it. *)
+Definition c14_result_refs_first (dev_name : string) (d : device) : string :=
+  let d' := names_normalized d in
+  match names_unique d' with
+  | Some e => "error:" ++ show_error e
+  | None =>
+    match refs_candidates d' with
+    | (_ :: _) as l => "oneof:" ++ show_errors l
+    | [] =>
+      match reset_pass_panic d' with
+      | Some w => "panic:reset_ref_" ++ w
+      | None =>
+        match device_name_check dev_name with
+        | Some e => "error:" ++ show_error e
+        | None =>
+          match lower (enough_fuel (d_objects d')) dev_name (d_objects d') with
+          | Ok bl => "ok:" ++ String.concat " " (map show_lir_block bl)
+          | Fail OutOfFuel => "abort:unbounded_ref_lowering"
+          | Fail _ => "panic:lowering"
+          end
+        end
+      end
+    end
+  end.
+
+Definition c14_full_refs_first (dev_name : string) (d : device) : string :=
+  c14_result_refs_first dev_name d ++ " ## " ++ c14_facts d.
